@@ -1,3 +1,57 @@
-(** placeholder *)
-From Xds Require Import Model.PolicyCheck.
-Theorem C16_placeholder : True. Proof. exact I. Qed.
+(** C16 — Circuit-breaker configuration tracks the latest cluster state.
+    Statements only; proofs are [exact] of lemmas in Proofs/PolicyProofs.v.
+    A configuration is (enabled, failure-percentage threshold, minimum sample); the error rate Kitex is given is
+    threshold/100 (a float: compared on the implementation side by the check, see PolicyCheck.kitex_rate). *)
+From Xds Require Import Model.Base Model.Fqdn Model.Proto Model.Decode Model.Sys Model.Policy.
+From Xds Require Import Proofs.PolicyProofs.
+Open Scope string_scope.
+
+(** After ANY sequence of cluster updates followed by [up], the configuration of every destination [k] is the
+    one derived from [up] alone; a destination configured only by an earlier update is disabled; a destination
+    never configured has no entry. *)
+Theorem C16_latest_only : forall ups up k,
+  aget k (cb_cfg (cb_run (ups ++ [up]))) =
+    match aget k (rev (cb_policies up)) with
+    | Some p => Some p
+    | None => if existsb (fun u => amem k (cb_policies u)) ups then Some cb_disabled else None
+    end.
+Proof. exact cb_latest_only. Qed.
+Print Assumptions C16_latest_only.
+
+(** What one cluster contributes: enabled with (threshold, volume) iff both are non-zero, disabled if either is
+    zero, nothing without outlier detection. *)
+Theorem C16_per_cluster : forall c,
+  cb_of_cluster c = match c_outlier c with
+                    | None => None
+                    | Some (thr, vol) => Some (if (negb (N.eqb thr 0) && negb (N.eqb vol 0))%bool then (true, thr, vol) else cb_disabled)
+                    end.
+Proof. exact cb_of_cluster_spec. Qed.
+Print Assumptions C16_per_cluster.
+
+(** One step of the history (the invariant [cb_inv] holds after every history: [C16_invariant]). *)
+Theorem C16_one_update : forall s up k, cb_inv s ->
+  aget k (cb_cfg (cb_update s up)) =
+    match aget k (rev (cb_policies up)) with
+    | Some p => Some p
+    | None => match aget k (cb_cfg s) with Some _ => Some cb_disabled | None => None end
+    end.
+Proof. exact cb_update_spec. Qed.
+Print Assumptions C16_one_update.
+
+Theorem C16_invariant : forall ups, cb_inv (cb_run ups).
+Proof. exact cb_run_inv. Qed.
+Print Assumptions C16_invariant.
+
+(** A breaker created after updates were received starts from the current state: it is replayed the cache. *)
+Theorem C16_late_registration : forall p replay,
+  p_cb (p_register p KCb replay) =
+  Some (fold_left (fun s u => match u_type u with TCl => cb_update s (u_map u) | _ => s end) replay cb_init).
+Proof. exact cb_late_registration. Qed.
+Print Assumptions C16_late_registration.
+
+Theorem C16_example :
+  let mk thr vol := VCl {| c_dtype := 0; c_lb := 0; c_epname := "e"; c_inline := None; c_outlier := Some (thr, vol) |} in
+  let none := VCl {| c_dtype := 0; c_lb := 0; c_epname := "e"; c_inline := None; c_outlier := None |} in
+  map (fun k => aget k (cb_cfg (cb_run [[("a", mk 10 5); ("b", mk 0 5)]; [("b", mk 50 100); ("c", none)]])))
+      ["a"; "b"; "c"; "d"] = [Some cb_disabled; Some (true, 50, 100); None; None].
+Proof. exact C16_example_proof. Qed.
